@@ -1222,7 +1222,7 @@ mod expression_parser {
                     let id_expr = expr::E::LocalId(
                       expr::ExpressionCommon {
                         loc: id.loc,
-                        associated_comments: NO_COMMENT_REFERENCE,
+                        associated_comments: id.associated_comments,
                         type_: (),
                       },
                       id,
@@ -1234,7 +1234,7 @@ mod expression_parser {
                         expr::E::LocalId(
                           expr::ExpressionCommon {
                             loc: name.loc,
-                            associated_comments: NO_COMMENT_REFERENCE,
+                            associated_comments: name.associated_comments,
                             type_: (),
                           },
                           name,
@@ -1265,7 +1265,7 @@ mod expression_parser {
                     expr::E::LocalId(
                       expr::ExpressionCommon {
                         loc: name.loc,
-                        associated_comments: NO_COMMENT_REFERENCE,
+                        associated_comments: name.associated_comments,
                         type_: (),
                       },
                       name,
@@ -1316,7 +1316,7 @@ mod expression_parser {
                   expr::E::LocalId(
                     expr::ExpressionCommon {
                       loc: name.loc,
-                      associated_comments: NO_COMMENT_REFERENCE,
+                      associated_comments: name.associated_comments,
                       type_: (),
                     },
                     name,
@@ -1367,7 +1367,7 @@ mod expression_parser {
               return expr::E::LocalId(
                 expr::ExpressionCommon {
                   loc: start_id.loc,
-                  associated_comments: NO_COMMENT_REFERENCE,
+                  associated_comments: start_id.associated_comments,
                   type_: (),
                 },
                 start_id,
@@ -1379,7 +1379,7 @@ mod expression_parser {
             let id_expr = expr::E::LocalId(
               expr::ExpressionCommon {
                 loc: start_id.loc,
-                associated_comments: NO_COMMENT_REFERENCE,
+                associated_comments: start_id.associated_comments,
                 type_: (),
               },
               start_id,
